@@ -70,7 +70,7 @@ type Summary struct {
 	Stalls      int64          `json:"stalls"`
 	Idles       int64          `json:"idles"`
 	Tasks       int64          `json:"tasks"`
-	VirtualNs   int64          `json:"virtual_ns"`
+	VirtualS    float64        `json:"virtual_s"`
 	Probes      map[string]int `json:"probes"`
 	Hashes      []string       `json:"hashes"`       // distinct event-log hashes of non-trivial runs
 	Nontrivial  int            `json:"nontrivial"`   // runs that were non-trivial
@@ -245,7 +245,7 @@ func (sp *Spec) batch(t *testing.T, tier string, seed uint64, slot, epoch, start
 		sum.Stalls += int64(res.Stalls)
 		sum.Idles += int64(res.Idles)
 		sum.Tasks += int64(res.Tasks)
-		sum.VirtualNs += int64(res.Virtual)
+		sum.VirtualS += res.Virtual.Seconds()
 		if res.Steps > sum.MaxSteps {
 			sum.MaxSteps = res.Steps
 		}
